@@ -348,6 +348,8 @@ InitProg == InitState /\ prog \in { pr \in Programs : pr.tag[3] \in EnterPasses(
 \* a finished run stutters; a program with a call that cannot be made deadlocks (CHECK_DEADLOCK TRUE)
 NextProg == IF prog.calls = <<>> THEN UNCHANGED vars ELSE Do(Head(prog.calls))
 SpecProg == InitProg /\ [][NextProg]_vars
+\* the history of a scenario run records every call of its program (Depth is large enough)
+Inv_ProgFits == prog.tag # <<>> => Len(hist) + Len(prog.calls) <= Depth
 \* a finished run is printed: the calls with their results, List() and the store after each
 PrintProgram == (prog.tag # <<>> /\ prog.calls = <<>>) => PrintT(ToJson([program |-> hist, tag |-> prog.tag]))
 
